@@ -178,7 +178,7 @@ def noAmbiguity (env : Env) (op0 op1 : Op) (caseBlind reluctant multiLine : Bool
 
 mutual
 /-- `optimize(flags)` -/
-def optimize (env : Env) (fl : Flags) : Op → Op
+def optimize (env : Env) (fl : CFlags) : Op → Op
   | .capture g c => .capture g (optimize env fl c)
   | .choice bs => .choice (optimizeL env fl bs)
   | .seq ops => match ops with
@@ -197,13 +197,13 @@ def optimize (env : Env) (fl : Flags) : Op → Op
   | .unamb c mn mx => .unamb (optimize env fl c) mn mx
   | o => o
 termination_by structural o => o
-def optimizeL (env : Env) (fl : Flags) : List Op → List Op
+def optimizeL (env : Env) (fl : CFlags) : List Op → List Op
   | [] => []
   | o :: os => optimize env fl o :: optimizeL env fl os
 termination_by structural l => l
 /-- the `map` over a sequence of ≥ 2 operations: element `i` is optimized and then possibly
     replaced by an UnambiguousRepeat, judged against the *un-optimized* element `i + 1` -/
-def optimizeSeq (env : Env) (fl : Flags) : List Op → List Op
+def optimizeSeq (env : Env) (fl : CFlags) : List Op → List Op
   | [] => []
   | [o] => [optimize env fl o]
   | o :: nxt :: os =>
